@@ -206,6 +206,15 @@ func (s *session) exec(op string) string {
 		if s.lastErr != "" {
 			status = "done " + s.lastErr
 		}
+		if s.lastErr == "" && !s.stopped {
+			// monitor C02/C07: normal termination - nothing written to a registered input
+			// may be left undelivered
+			for c := range s.chanPri {
+				if len(s.got[c]) != len(s.arrived[c]) {
+					s.fail("C02 the discipline terminated normally although %d item(s) written to the input registered for priority %d were never delivered", len(s.arrived[c])-len(s.got[c]), s.chanPri[c])
+				}
+			}
+		}
 		return status + " " + s.snapshot()
 	}
 	return "bad-op"
